@@ -99,6 +99,10 @@ Bounded == ~IsLines => /\ m.i <= Len(m.ls) + 1
 \* the step machine and the functional definition agree on every input
 Agree == (~IsLines /\ m.done) => m.out = ItemsFor(src.p, src.b)
 
+\* the closed form of Lines used for long streams = the byte-by-byte definition
+LinesClosedForm == IF IsLines THEN m.pos = 0 => Lines(m.data) = LinesRec(m.data)
+                   ELSE m.out = << >> => Lines(src.b) = LinesRec(src.b)
+
 \* generated records respect the documented preconditions
 ValidGen == src.t = "rt" => \A i \in 1..Len(src.recs) : ValidRec(src.kind, src.recs[i], src.wrap)
 
